@@ -77,8 +77,13 @@ fn tu_stderr(t: usize) -> Vec<u8> {
 fn tu_pperr(t: usize) -> Vec<u8> {
     format!("ppe{}", t).into_bytes()
 }
+/// "objN" followed by 48 bytes that do not compress (same formula as Run/C09.v `tu_obj`)
 fn tu_obj(t: usize) -> Vec<u8> {
-    format!("obj{}", t).into_bytes()
+    let mut v = format!("obj{}", t).into_bytes();
+    for i in 0..48usize {
+        v.push(((i * i * 7 + i * 13 + t * 29 + 3) % 256) as u8);
+    }
+    v
 }
 
 fn tu_of_args(args: &[OsString]) -> Option<usize> {
@@ -697,7 +702,11 @@ impl World {
                 }
             } else {
                 let ok = match CacheRead::from(Cursor::new(bytes)) {
-                    Ok(mut r) => r.get_object("obj", &mut std::io::sink()).is_ok(),
+                    Ok(mut r) => {
+                        r.get_object("obj", &mut std::io::sink()).is_ok()
+                            && r.get_stdout().is_ok()
+                            && r.get_stderr().is_ok()
+                    }
                     Err(_) => false,
                 };
                 if ok {
@@ -754,7 +763,10 @@ impl World {
         }
     }
 
-    fn disk_op(&self, target: &str, what: &str, tu: usize) {
+    fn disk_op(&self, target: &str, what: &str, tu: usize, off: u64) {
+        if !self.cache.is_dir() {
+            return;
+        }
         self.learn_from_disk();
         let k = self.keys.lock().unwrap().get(&tu).cloned().unwrap_or((None, None));
         let path = match target {
@@ -766,6 +778,28 @@ impl World {
             _ => return,
         };
         match what {
+            "flip" => {
+                // change one byte IN PLACE inside the stored data of one member: the file length, the zip
+                // directory and (usually) the zstd framing stay valid
+                if target != "res" {
+                    return;
+                }
+                let mut b = std::fs::read(&path).unwrap();
+                let members = match CacheRead::from(Cursor::new(b.clone())) {
+                    Ok(mut r) => r.verif_members(),
+                    Err(_) => return,
+                };
+                let want = ["obj", "stdout", "stderr"][(off % 3) as usize];
+                if let Some((_, start, size, _)) = members.iter().find(|m| m.0 == want) {
+                    if *size > 0 {
+                        let pos = (*start + (off / 3) % *size) as usize;
+                        if pos < b.len() {
+                            b[pos] = b[pos].wrapping_add(1);
+                            std::fs::write(&path, &b).unwrap();
+                        }
+                    }
+                }
+            }
             "garbage" => std::fs::write(&path, b"\x09overwritten with garbage behind the server's back").unwrap(),
             "truncate" => {
                 let b = std::fs::read(&path).unwrap();
@@ -956,12 +990,40 @@ async fn run_case(case: &Sx, rt: tokio::runtime::Handle) -> Result<Sx, String> {
             }
             "disk" => {
                 // ( disk target what tu )
-                w.disk_op(&step.arg(1).str(), &step.arg(2).str(), step.arg(3).u64() as usize);
+                w.disk_op(&step.arg(1).str(), &step.arg(2).str(), step.arg(3).u64() as usize, step.arg(4).u64());
                 obs.push(Sx::L(vec![Sx::sym("disk"), w.disk()]));
             }
             "restart" => {
                 w.restart(step.arg(1).is_sym("ro")).await;
                 obs.push(Sx::L(vec![Sx::sym("restart"), w.disk(), w.stats().await]));
+            }
+            "restart_broken" => {
+                // the cache directory cannot be opened when the new server first touches its stores
+                let saved = w.dir.path().join("cache.saved");
+                if w.cache.is_dir() {
+                    let _ = std::fs::remove_dir_all(&saved);
+                    std::fs::rename(&w.cache, &saved).unwrap();
+                }
+                if !w.cache.exists() {
+                    std::fs::write(&w.cache, b"a regular file where the cache directory should be").unwrap();
+                }
+                w.restart(false).await;
+                obs.push(Sx::L(vec![Sx::sym("restart_broken"), w.disk(), w.stats().await]));
+            }
+            "heal" => {
+                let saved = w.dir.path().join("cache.saved");
+                if w.cache.is_file() {
+                    std::fs::remove_file(&w.cache).unwrap();
+                    if saved.is_dir() {
+                        std::fs::rename(&saved, &w.cache).unwrap();
+                    } else {
+                        std::fs::create_dir_all(&w.cache).unwrap();
+                    }
+                }
+                // same server: the lazily opened stores have to retry; build both indices now
+                let _ = w.storage.inner.get("00000000000000000000000000000000").await;
+                let _ = w.storage.inner.get_preprocessor_cache_entry("00000000000000000000000000000000").await;
+                obs.push(Sx::L(vec![Sx::sym("heal"), w.disk()]));
             }
             "zero" => {
                 let _ = w.service.verif_call(Request::ZeroStats).await;
